@@ -566,6 +566,16 @@ def post_init_obligations(chk):
         return [slf], {}, {"self": slf, "ty": ty, "un": un, "var": var}
     results = I.run_function(func, mk)
     names = ["unwrapped-defaults-to-the-type", "frame::type-var-cyclic-unchanged"]
+    # "not given" is whatever the field's declared default is (read from the live class) - and that marker must not be an
+    # annotation itself: None is one (`type Missing = None` unwraps to it; the earlier version of this clause encoded the code's
+    # `is None` test and was corrected together with fix 9348d02)
+    import dataclasses as _dc
+    from typelib import graph as _graph
+    default = next(f.default for f in _dc.fields(_graph.TypeNode) if f.name == "unwrapped")
+    marker = to_val(default)
+    chk.add(Ob(func, "the-not-given-marker-is-not-an-annotation", "ground", [],
+               z3.BoolVal(default is not None and default is not Ellipsis and not isinstance(default, (type(int | str), str)) and default is not _dc.MISSING),
+               {"marker": repr(default)}))
     for pi, (path, out, obls, writes, cur) in enumerate(results):
         pid, hy = f"p{pi}", path.hyps
         if out.kind not in ("ret", "end"):
@@ -573,7 +583,7 @@ def post_init_obligations(chk):
                 chk.add(Ob(func, nm, pid, hy, z3.BoolVal(False), {"outcome": out.kind, "why": str(out.value)}))
             continue
         f = cur["self"].fields
-        chk.add(Ob(func, names[0], pid, hy, to_val(f["unwrapped"]) == z3.If(cur["un"] == VNone, cur["ty"], cur["un"])))
+        chk.add(Ob(func, names[0], pid, hy, to_val(f["unwrapped"]) == z3.If(cur["un"] == marker, cur["ty"], cur["un"])))
         chk.add(Ob(func, names[1], pid, hy, z3.And(to_val(f["type"]) == cur["ty"], to_val(f["var"]) == cur["var"], z3.BoolVal(f["cyclic"] is False),
                                                  z3.BoolVal(set(f) == {"type", "unwrapped", "var", "cyclic"}))))
     if results:
